@@ -44,11 +44,11 @@ def lagrange_matrix(dst, src):
 def make_pair(rng, with_tau, exact_tables):
     from pySDC.core.base_transfer import BaseTransfer
     from pySDC.implementations.sweeper_classes.generic_implicit import generic_implicit
-    Mf = rng.choice([2, 3, 4, 5]); Mc = rng.choice([m for m in (1, 2, 3, 4) if m <= Mf])
+    Mf = rng.choice([2, 3, 3, 4]); Mc = rng.choice([m for m in (1, 2, 3, 4) if m <= Mf])
     quadf = rng.choice(['RADAU-RIGHT', 'LOBATTO', 'GAUSS']); quadc = rng.choice(['RADAU-RIGHT', 'LOBATTO', 'GAUSS'])
     if quadc == 'LOBATTO' and Mc < 2:
         quadc = 'RADAU-RIGHT'
-    df = rng.choice([1, 2, 4]); dc = df if rng.random() < 0.5 or df == 1 else df // 2
+    df = rng.choice([1, 2, 2, 4]); dc = df if rng.random() < 0.5 or df == 1 else df // 2
     dt = F(rng.randint(1, 4), rng.choice([4, 8])); t0 = rfrac(rng, -2, 2)
     lamf = [rfrac(rng, -3, 2) for _ in range(df)]; cf = [rfrac(rng, -2, 2) for _ in range(df)]
     lamc = [rfrac(rng, -3, 2) for _ in range(dc)]; cc = [rfrac(rng, -2, 2) for _ in range(dc)]
@@ -58,7 +58,10 @@ def make_pair(rng, with_tau, exact_tables):
     Rm = tuple(tuple(rfrac(rng, -1, 2, (1, 2)) for _ in range(df)) for _ in range(dc))
     Pm = tuple(tuple(rfrac(rng, -1, 2, (1, 2)) for _ in range(dc)) for _ in range(df))
     bt = BaseTransfer(LF, LG, {'finter': finter}, er.ExactSpaceTransfer, {'Rm': Rm, 'Pm': Pm})
-    ex.exactify(LF, dt=dt); ex.exactify(LG, dt=dt)
+    # exact_tables: small-rational surrogate tables (denominators <= 24) and the exact Lagrange matrices of those
+    # nodes (row sums exactly one, moderate size); otherwise the exact images of the float tables (row sums ~ 1)
+    small = 24 if exact_tables else None
+    ex.exactify(LF, dt=dt, small=small); ex.exactify(LG, dt=dt, small=small)
     if exact_tables:
         nf = [F(x) for x in LF.sweep.coll.nodes]; nc = [F(x) for x in LG.sweep.coll.nodes]
         if Mf == Mc:
@@ -102,7 +105,7 @@ def part_AB(ck, rng, n):
     cases = []
     for i in range(n):
         with_tau = rng.random() < 0.5
-        exact_tables = rng.random() < 0.5
+        exact_tables = rng.random() < 0.7
         try:
             bt, LF, LG, coeffs, meta = make_pair(rng, with_tau, exact_tables)
         except Exception as e:
@@ -265,16 +268,21 @@ def part_D(ck, rng, thorough):
     for order in ([2, 4, 6, 8] if thorough else [2, 6]):
         configs.append(('heat', mesh_to_mesh, {'iorder': order, 'rorder': 2}, [31, 15], 'dirichlet-zero'))
         configs.append(('advection', mesh_to_mesh, {'iorder': order, 'rorder': 2, 'periodic': True}, [32, 16], 'periodic'))
-    configs.append(('advection', mesh_to_mesh_fft, {}, [32, 16], 'periodic'))
+    configs.append(('advdiff_fft', mesh_to_mesh_fft, {}, [32, 16], 'periodic'))
     configs.append(('heat', mesh_to_mesh_nc, {}, [31, 31], 'dirichlet-zero'))
     for name, tcls, tpar, nvars, bc in configs:
         for nodes in ([3, 2], [3, 3]):
-            pcls = heatNd_unforced if name == 'heat' else advectionNd
-            pp = {'nvars': nvars, 'bc': bc, 'freq': 2}
-            if name == 'heat':
-                pp['nu'] = 0.1
+            if name == 'advdiff_fft':
+                from pySDC.implementations.problem_classes.AdvectionDiffusionEquation_1D_FFT import advectiondiffusion1d_implicit
+                pcls = advectiondiffusion1d_implicit
+                pp = {'nvars': nvars, 'nu': 0.05, 'c': 0.5, 'freq': 2}
             else:
-                pp['c'] = 0.5
+                pcls = heatNd_unforced if name == 'heat' else advectionNd
+                pp = {'nvars': nvars, 'bc': bc, 'freq': 2}
+                if name == 'heat':
+                    pp['nu'] = 0.1
+                else:
+                    pp['c'] = 0.5
             dt = 0.01
             desc = dict(problem_class=pcls, problem_params=pp, sweeper_class=generic_implicit,
                         sweeper_params={'num_nodes': nodes, 'quad_type': 'RADAU-RIGHT', 'QI': 'LU'},
@@ -287,8 +295,13 @@ def part_D(ck, rng, thorough):
                     L = step.levels[0]
                     P = L.prob
                     M = L.sweep.coll.num_nodes
-                    A = P.A.toarray() if sp.issparse(P.A) else np.asarray(P.A)
-                    n = A.shape[0]
+                    # the (linear) operator, probed column by column from the problem's own eval_f
+                    n = int(np.asarray(L.u[0]).size)
+                    A = np.zeros((n, n))
+                    for j in range(n):
+                        e = P.dtype_u(P.init, val=0.0)
+                        e.ravel()[j] = 1.0
+                        A[:, j] = np.asarray(P.eval_f(e, L.time)).ravel()
                     Qm = L.sweep.coll.Qmat[1:, 1:]
                     big = np.eye(M * n) - L.dt * np.kron(Qm, A)
                     rhs = np.tile(np.asarray(L.u[0]).ravel(), M)
@@ -330,8 +343,9 @@ def run(ck):
     ck.rule = ('A/B: seeded level pairs (node counts, quadrature types, space dims, finter, inherited tau, exact-rational vs float-image Rcoll/Pcoll); '
                'C: exact 2-3 level controller iterations started at the collocation solution; D: float transfer classes; distinct = configuration tuple')
     ck.check_props(required=['C10_coarse_defect_is_restricted_fine_defect', 'C10_prolong_zero_correction', 'C10_two_level_cycle_fixed_point'])
-    cases = part_AB(ck, rng, 300 if thorough else 80)
-    chunk = 20
+    cases = part_AB(ck, rng, 300 if thorough else 60)
+    ck.log('A/B: %d real restrict/prolong cases run' % len(cases))
+    chunk = 5
     import concurrent.futures as cf
     files = []
     for ci in range(0, len(cases), chunk):
@@ -339,7 +353,7 @@ def run(ck):
                 'Import ListNotations.', 'Definition cases : list (tcase * list Qc) := [', ';\n'.join(c[1] for c in cases[ci:ci + chunk]), '].',
                 'Eval vm_compute in map check_tcase cases.']
         files.append(ck.write_gen('TCases_%03d.v' % (ci // chunk), '\n'.join(body) + '\n'))
-    with cf.ThreadPoolExecutor(max_workers=8) as pool:
+    with cf.ThreadPoolExecutor(max_workers=14) as pool:
         outs = list(pool.map(lambda f: ck.coqc(f, timeout=900), files))
     results = []
     for f, (rc, out) in zip(files, outs):
@@ -356,5 +370,8 @@ def run(ck):
             ck.violation('model and real BaseTransfer differ at observable #%d' % r, {'correspondence': 'Model/TransferExec.t_run vs BaseTransfer', 'meta': meta, 'first_differing_observable': r},
                          match={'kind': 'correspondence'}, no_input=True)
     ck.obligation('exact correspondence model = BaseTransfer on %d restrict/prolong cases' % len(cases), nd == 0)
-    part_C(ck, rng, 60 if thorough else 16)
+    ck.log('model evaluated')
+    part_C(ck, rng, 200 if thorough else 40)
+    ck.log('part C done')
     part_D(ck, rng, thorough)
+    ck.log('part D done')
